@@ -8,6 +8,54 @@ COMMON_ASSUME = [
 
 META = {}
 
+import json as _json, os as _os, subprocess as _sp, re as _re
+
+def miri_extra(prop, argv_seeds, miri_seeds):
+    """Thorough tier only: tiny free-running thread scenarios of `prop` under Miri
+    (many-seeds: Miri's preemptive scheduler; deadlock / data race / UB are Miri errors)."""
+    def run(tier, seed, repo):
+        if tier != "thorough":
+            return None
+        root = _os.path.dirname(_os.path.abspath(__file__))
+        hdir = _os.path.join(root, "harness")
+        env = dict(_os.environ, CARGO_NET_OFFLINE="true", CARGO_TARGET_DIR=_os.path.join(hdir, "target-miri"),
+                   MIRIFLAGS="-Zmiri-many-seeds=0..%d -Zmiri-ignore-leaks -Zmiri-disable-isolation" % miri_seeds)
+        out = {"counters": {"miri_processes": 0, "miri_scenario_runs": 0, "miri_events": 0}, "violations": [], "inconclusive": [], "samples": []}
+        if _os.path.abspath(repo) != "/repo":
+            out["inconclusive"].append("miri part skipped for --repo override")
+            return out
+        for k in range(argv_seeds):
+            try:
+                p = _sp.run(["cargo", "+nightly", "miri", "run", "--offline", "--", "run", "--prop", prop, "--mode", "miri",
+                             "--tier", "thorough", "--seed", str(seed * 100 + k)], cwd=hdir, env=env,
+                            stdout=_sp.PIPE, stderr=_sp.PIPE, text=True, timeout=1500)
+            except _sp.TimeoutExpired:
+                out["inconclusive"].append("miri run %d: watchdog fired" % k)
+                continue
+            lines = [l for l in p.stdout.splitlines() if l.startswith("MIRI-RESULT ")]
+            out["counters"]["miri_processes"] += len(lines)
+            for l in lines:
+                for r in _json.loads(l[len("MIRI-RESULT "):]):
+                    out["counters"]["miri_scenario_runs"] += 1
+                    out["counters"]["miri_events"] += r["events"]
+                    if r["violation"]:
+                        out["violations"].append({"kind": r["violation"]["kind"], "locus": r["scenario"] + "[miri]", "case_id": "miri:%d" % (seed * 100 + k),
+                                                  "detail": r["violation"]["detail"], "shard": 0, "nshards": 1})
+            err = p.stderr
+            if "the evaluated program deadlocked" in err or _re.search(r"error: deadlock", err):
+                out["violations"].append({"kind": "deadlock", "locus": "miri", "case_id": "miri:%d" % (seed * 100 + k),
+                                          "detail": {"miri_stderr_tail": err[-1500:]}, "shard": 0, "nshards": 1})
+            elif "Undefined Behavior" in err or "Data race" in err or "data race" in err:
+                out["violations"].append({"kind": "miri_undefined_behaviour", "locus": "miri", "case_id": "miri:%d" % (seed * 100 + k),
+                                          "detail": {"miri_stderr_tail": err[-1500:]}, "shard": 0, "nshards": 1})
+            elif p.returncode != 0 and not lines:
+                out["inconclusive"].append("miri run %d failed to run: %s" % (k, err[-300:].replace("\n", " | ")))
+            if k == 0 and lines:
+                out["samples"].append({"miri_run": _json.loads(lines[0][len("MIRI-RESULT "):])})
+        return out
+    return run
+
+
 META["C03"] = {
     "title": "Sources and single-input operators compute their documented sequence",
     "rule": "cases = (operator chain AST, input script). Enumerated: every single-input operator x every parameter in 0..n+1 / predicate family x every script over {0,1,2} up to length n (quick 3, thorough 5) x terminal {none,complete,error} x sources {Subject, create (sync and stashed-handle), from_iter}; every basic source alone and under every operator; plus seeded random chains of depth 2..5 with post-terminal events. A case is non-trivial when the reference model's expected output contains an item, or terminates although the input did not, or ends with an error; distinct = distinct hash of (AST, script).",
@@ -287,6 +335,11 @@ META["C12"] = {
     "design_ref": "DESIGN.md §5 C12",
     "require": {"quick": {"subject_types_covered": 2, "thread_schedules": 4000}, "thorough": {"subject_types_covered": 2}},
 }
+
+META["C10"]["extra"] = miri_extra("C10", 24, 32)
+META["C06"]["extra"] = miri_extra("C06", 6, 32)
+META["C12"]["extra"] = miri_extra("C12", 6, 32)
+META["C15"]["extra"] = miri_extra("C15", 6, 32)
 
 
 # properties without a check yet are listed here with the reason; the list shrinks as checks land
